@@ -82,7 +82,7 @@ KnownNone == {}
 Known21 == {"C21-1"}
 Known22 == {"C22-1"}
 
-View == <<ghost, nodeop, lock, body, head, refsOK, topo, marker, pc, abort, tries, complete, up, broken, crashes, fresh, startedInTopo>>
+View == <<ghost, nodeop, lock, body, head, refsOK, topo, marker, pc, abort, tries, topoLock, complete, up, broken, crashes, fresh, startedInTopo>>
 
 \* what the last step did, for the replayer (derived, not a variable)
 Act ==
@@ -93,10 +93,10 @@ Act ==
 
 St == [ghost |-> ghost, nodeop |-> nodeop, lock |-> lock, body |-> body, head |-> head, topo |-> topo,
        marker |-> marker, pc |-> pc, complete |-> complete, up |-> up, broken |-> broken,
-       crashes |-> crashes, fresh |-> fresh, sit |-> startedInTopo, rok |-> refsOK, ab |-> abort, tr |-> tries]
+       crashes |-> crashes, fresh |-> fresh, sit |-> startedInTopo, rok |-> refsOK, ab |-> abort, tr |-> tries, tl |-> topoLock]
 StP == [ghost |-> ghost', nodeop |-> nodeop', lock |-> lock', body |-> body', head |-> head', topo |-> topo',
        marker |-> marker', pc |-> pc', complete |-> complete', up |-> up', broken |-> broken',
-       crashes |-> crashes', fresh |-> fresh', sit |-> startedInTopo', rok |-> refsOK', ab |-> abort', tr |-> tries']
+       crashes |-> crashes', fresh |-> fresh', sit |-> startedInTopo', rok |-> refsOK', ab |-> abort', tr |-> tries', tl |-> topoLock']
 
 Emit == PrintT("EDGE " \o ToJson([from |-> St, o |-> Act, to |-> StP]))
 =============================================================================
